@@ -542,7 +542,23 @@ func TestLexerDFA(t *testing.T) {
 		other := usable[(i*37)%len(usable)]
 		jobs = append(jobs, job{[]ruleSpec{{other, 2}, {nt, -1}}}, job{[]ruleSpec{{nt, 2}, {other, 3}}})
 	}
-	for len(jobs) < n+len(usable)+2*len(nullable) {
+	// one range owned by 3, 5, 6 or 7 rules (owner lists with spare capacity), split into
+	// pieces that exist as ranges of their own, the first of which is split again
+	nShared := 0
+	for _, owners := range []int{3, 5, 6, 7} {
+		var rs []ruleSpec
+		wide := class("a-j", []rng{{'a', 'j'}}, false)
+		for k := 0; k < owners; k++ {
+			rs = append(rs, ruleSpec{catT(wide, lit(string(rune('k'+k)))), 2 + k})
+		}
+		rs = append(rs,
+			ruleSpec{catT(class("d-f", []rng{{'d', 'f'}}, false), lit("x")), 2 + owners},
+			ruleSpec{catT(class("g-j", []rng{{'g', 'j'}}, false), lit("y")), 3 + owners},
+			ruleSpec{catT(lit("e"), lit("z")), 4 + owners})
+		jobs = append(jobs, job{rs})
+		nShared++
+	}
+	for len(jobs) < n+len(usable)+2*len(nullable)+nShared {
 		k := 2 + rnd.Intn(2)
 		var rs []ruleSpec
 		tok := 0
@@ -581,7 +597,7 @@ func TestLexerDFA(t *testing.T) {
 			rep.sample(name)
 		}
 	})
-	rep.done(t, false, fmt.Sprintf("%d expression shapes of size <=3 over 16 atoms (literals incl. multi-byte characters, classes incl. negation, nested and overlapping items, code-space ends, '.'); every single rule, every rule that also matches the empty string beside another rule, plus %d seeded random sets of 2-3 rules; per set ALL strings are covered by product exploration (<=4000 product states)", len(usable), n))
+	rep.done(t, false, fmt.Sprintf("%d expression shapes of size <=3 over 16 atoms (literals incl. multi-byte characters, classes incl. negation, nested and overlapping items, code-space ends, '.'); every single rule, every rule that also matches the empty string beside another rule, four sets in which 3-7 rules share a range that is split twice, plus %d seeded random sets of 2-3 rules; per set ALL strings are covered by product exploration (<=4000 product states)", len(usable), n))
 }
 
 // ---- non-greedy repetitions (C08) ----------------------------------------------------------------
